@@ -39,4 +39,12 @@ let handle (p : string) : string =
        let rt = match back with Ok c2 -> if cmd_eq_cpp c c2 && c2 = c then "1" else "0" | _ -> "0" in
        Printf.sprintf "packed=%s;rt=%s" (hex_of_bytes b) rt)
   | _ -> "bad-op"
-let () = vh_run handle
+let handle_c (p : string) : string =
+  let r = handle p in
+  let op = match split p with o :: _ -> o | [] -> "?" in
+  let k = if String.length r >= 5 && String.sub r 0 5 = "st=ok" then "accepted"
+          else if String.length r >= 7 && String.sub r 0 7 = "packed=" then
+            (if r = "packed=none" then "refused" else "packed")
+          else "rejected-" ^ r in
+  r ^ ";class=" ^ op ^ ":" ^ k
+let () = vh_run handle_c
